@@ -4,6 +4,7 @@ import (
 	"bytes"
 	"fmt"
 	"sort"
+	"strings"
 
 	astits "github.com/asticode/go-astits"
 	"verif/mc"
@@ -18,6 +19,7 @@ type c06Stream struct {
 	Pkts   []*ref.Pkt
 	UnitOf []int // unit index (within its PID) of each packet
 	PSI    map[uint16]bool
+	Units  map[uint16][][]byte // unit bytes per PID (to map a delivered datum back to its unit)
 }
 
 func c06Base(seed int64, long bool) *c06Stream {
@@ -47,8 +49,10 @@ func c06Base(seed int64, long bool) *c06Stream {
 		mk := func(pid uint16, sid uint8, tag, pkts int) SUnit {
 			return PESUnit(pid, sid, pesPayload(tag, 184*pkts-14-9, seed), uint64(tag), false)
 		}
+		withDI := mk(0x100, 0xe0, 3, 3)
+		withDI.AF = &ref.AF{Disc: true, PCR: &ref.PCR{Base: 99}}
 		pids = []*pidUnits{
-			{0x100, []SUnit{mk(0x100, 0xe0, 1, 20), mk(0x100, 0xe0, 2, 18), mk(0x100, 0xe0, 3, 2)}, 5},
+			{0x100, []SUnit{mk(0x100, 0xe0, 1, 20), mk(0x100, 0xe0, 2, 18), withDI, mk(0x100, 0xe0, 9, 2)}, 5},
 			{0x101, []SUnit{mk(0x101, 0xe1, 4, 2), mk(0x101, 0xe1, 5, 2)}, 0},
 		}
 	}
@@ -68,7 +72,12 @@ func c06Base(seed int64, long bool) *c06Stream {
 		unitOf = append(unitOf, uo)
 	}
 	order := roundRobin(lists)
-	st := &c06Stream{Name: map[bool]string{false: "mixed", true: "long"}[long], PSI: psi}
+	st := &c06Stream{Name: map[bool]string{false: "mixed", true: "long"}[long], PSI: psi, Units: map[uint16][][]byte{}}
+	for _, p := range pids {
+		for _, u := range p.units {
+			st.Units[p.pid] = append(st.Units[p.pid], u.Bytes)
+		}
+	}
 	pos := make([]int, len(lists))
 	for _, s := range order {
 		st.Pkts = append(st.Pkts, lists[s][pos[s]])
@@ -282,7 +291,15 @@ func checkFaulted(st *c06Stream, clean map[uint16][]string, fs []fault) (sig, ms
 
 // unitOfDatum maps the i-th clean datum of a PID to its unit index (units delivering several
 // sections map several data to one unit). Units of the base streams deliver exactly one datum.
-func unitOfDatum(st *c06Stream, pid uint16, clean map[uint16][]string, i int) int { return i }
+func unitOfDatum(st *c06Stream, pid uint16, clean map[uint16][]string, i int) int {
+	// a PES datum's canonical dump contains the hex of its payload, which is the tail of its unit's bytes
+	for u, b := range st.Units[pid] {
+		if len(b) > 40 && strings.Contains(clean[pid][i], fmt.Sprintf("%x", b[len(b)-24:])) {
+			return u
+		}
+	}
+	return i
+}
 
 func equalStrs(a, b []string) bool {
 	if len(a) != len(b) {
@@ -531,6 +548,34 @@ func checkSeq(seq []seqPkt) (sig, msg string, delivered int, faultFree bool) {
 					continue // other PID, adaptation-only, or an immediate duplicate
 				}
 				return "splice-skips-packet", fmt.Sprintf("unit joins packets %d and %d but skips payload packet %d", prev, i, j), delivered, false
+			}
+		}
+	}
+	// a delivered unit must not be provably truncated: if the packet that follows its last packet (within
+	// the PID, immediate duplicates aside) is an unusable (transport error) continuation carrying the next
+	// counter value - i.e. the unit lost that packet - and a later usable payload packet of the PID exists
+	// (the statement's precondition: the counter can reveal the gap), the unit must not be delivered
+	for _, d := range out.Data {
+		if d.PID != 0x100 || d.PES == nil || len(d.PES.Data) == 0 {
+			continue
+		}
+		last := byTag[d.PES.Data[len(d.PES.Data)-1]]
+		next, later := -1, false
+		for j := last + 1; j < len(seq); j++ {
+			q := seq[j]
+			if !q.a || !q.pkt.HasPL || q.dupPrev {
+				continue
+			}
+			if next < 0 {
+				next = j
+			} else if q.usable {
+				later = true
+			}
+		}
+		if next >= 0 && later {
+			q := seq[next]
+			if !q.usable && !q.pkt.PUSI && q.pkt.CC == (seq[last].pkt.CC+1)&0xf {
+				return "truncated-unit-delivered", fmt.Sprintf("unit ending at packet %d was delivered although its continuation (packet %d, transport error) was lost and a later packet of the PID reveals the gap", last, next), delivered, false
 			}
 		}
 	}
